@@ -167,11 +167,12 @@ class _Model:
             ensure(u["at"] + u["size"])
             image[u["at"]:u["at"] + u["size"]] = val.to_bytes(u["size"], self.order)
         # unused bits of partly used units must be zero in the image for the round trip: rebuild those units from their fields only
+        # the tail padding is on the absolute stream position in reader and writer alike (for a stream that starts aligned this is start + size)
         end = pos
         if align and alignment:
             end += -end & (alignment - 1)
-        if size is not None:
-            end = start + size
+        if size is not None and start % 16 == 0:
+            assert end == start + size, (seq, align, start, end, size)
         ensure(end)
         image_bytes = bytes(image) + b"\xee\xee\xee"
         # ---- interpret the reader
@@ -253,7 +254,7 @@ def fold_struct_rw(repo: Repo, max_len: int = 2) -> dict | None:
             m = _Model(repo, endian)
             for seq in _cases(max_len if endian == "<" else min(max_len, 1)):
                 for align in (False, True):
-                    for start in (0, 16):
+                    for start in (0, 16, 3):
                         out["cases"] += 1
                         complaints = m.run(seq, align, start)
                         if complaints and len(out["bad"]) < 6:
